@@ -2,27 +2,35 @@ package main
 
 // Translator generator C15Consts: constants of util/maven and util/resolve that
 // the Lean model of C15 uses (data only).
+//
+// What is exported API of /repo (MaxImports, MaxMavenParent, JDKProfileActivation,
+// OSProfileActivation) is read as the VALUE the linked code holds (the harness binary is
+// rebuilt from the tree under test on every check), so it does not matter whether it is a
+// constant, a variable, a literal or something built by a helper; where the type checker
+// knows the exported name as a constant, the two must agree (a stale binary is refused).
+//
+// The built-in property names of Project.propertyMap are found by role in the
+// type-checked package, not by the names `propertyMap` / `addProjectProperty` / `p`:
+// the one function that stores under <constant prefix>+<its string parameter> in a
+// map[string]string is the adder; its call sites with a constant name and a field of the
+// Project are the built-ins.
 
 import (
+	"bytes"
 	"fmt"
 	"go/ast"
 	"go/constant"
 	"go/token"
 	"go/types"
 	"path/filepath"
+	"sort"
 	"strings"
 
+	"deps.dev/util/maven"
+	"deps.dev/util/resolve"
 	"golang.org/x/tools/go/packages"
 	"verifharness/fw"
 )
-
-func constString(p *packages.Package, name string) (string, error) {
-	c, ok := p.Types.Scope().Lookup(name).(*types.Const)
-	if !ok || c.Val().Kind() != constant.String {
-		return "", fmt.Errorf("%s: no string constant %s", p.PkgPath, name)
-	}
-	return constant.StringVal(c.Val()), nil
-}
 
 func leanNums(v []int) string {
 	parts := make([]string, len(v))
@@ -32,19 +40,280 @@ func leanNums(v []int) string {
 	return "[" + strings.Join(parts, ", ") + "]"
 }
 
-// selector path of an expression like p.Parent.GroupID → "Parent.GroupID"
-func selPath(e ast.Expr) string {
-	switch x := e.(type) {
-	case *ast.SelectorExpr:
-		if id, ok := x.X.(*ast.Ident); ok && id.Name == "p" {
-			return x.Sel.Name
-		}
-		return selPath(x.X) + "." + x.Sel.Name
+// agree refuses a binary whose linked value differs from the constant of that name in the
+// tree it is asked to translate (no constant of that name: nothing to compare).
+func agree(p *packages.Package, name string, linked constant.Value) error {
+	c, ok := p.Types.Scope().Lookup(name).(*types.Const)
+	if !ok {
+		return nil
 	}
-	return "?"
+	if !constant.Compare(c.Val(), token.EQL, linked) {
+		return fmt.Errorf("%s.%s is %s in the source tree but %s in the linked code (harness binary not built from this tree)", p.PkgPath, name, c.Val(), linked)
+	}
+	return nil
 }
 
 var fieldIndex = map[string]int{"GroupID": 0, "ArtifactID": 1, "Version": 2, "Parent.GroupID": 3, "Parent.ArtifactID": 4, "Parent.Version": 5}
+
+// projectField renders x.Parent.GroupID as "Parent.GroupID" when x is a (pointer to a)
+// maven.Project.
+func projectField(p *packages.Package, e ast.Expr) (string, bool) {
+	var names []string
+	for {
+		e = ast.Unparen(e)
+		se, ok := e.(*ast.SelectorExpr)
+		if !ok {
+			break
+		}
+		names = append([]string{se.Sel.Name}, names...)
+		e = se.X
+	}
+	tv, ok := p.TypesInfo.Types[e]
+	if !ok || len(names) == 0 {
+		return "", false
+	}
+	t := tv.Type
+	if pt, ok := t.Underlying().(*types.Pointer); ok {
+		t = pt.Elem()
+	}
+	nt, ok := t.(*types.Named)
+	if !ok || nt.Obj().Pkg() != p.Types || nt.Obj().Name() != "Project" {
+		return "", false
+	}
+	return strings.Join(names, "."), true
+}
+
+type builtin struct {
+	key   string
+	field int
+}
+
+// an adder is a function (declared or literal) with a string parameter k that assigns
+// m[<constant>+k] for a map[string]string m.
+type adder struct {
+	node     ast.Node
+	keyIdx   int
+	prefixes []string
+}
+
+func paramObjs(p *packages.Package, ft *ast.FuncType) []types.Object {
+	var out []types.Object
+	if ft.Params == nil {
+		return nil
+	}
+	for _, f := range ft.Params.List {
+		if len(f.Names) == 0 {
+			out = append(out, nil)
+		}
+		for _, n := range f.Names {
+			out = append(out, p.TypesInfo.Defs[n])
+		}
+	}
+	return out
+}
+
+func isStringStringMap(t types.Type) bool {
+	m, ok := t.Underlying().(*types.Map)
+	if !ok {
+		return false
+	}
+	k, ok1 := m.Key().Underlying().(*types.Basic)
+	v, ok2 := m.Elem().Underlying().(*types.Basic)
+	return ok1 && ok2 && k.Kind() == types.String && v.Kind() == types.String
+}
+
+func findAdders(p *packages.Package) []adder {
+	var out []adder
+	for _, f := range p.Syntax {
+		ast.Inspect(f, func(n ast.Node) bool {
+			var ft *ast.FuncType
+			var body *ast.BlockStmt
+			switch x := n.(type) {
+			case *ast.FuncDecl:
+				ft, body = x.Type, x.Body
+			case *ast.FuncLit:
+				ft, body = x.Type, x.Body
+			}
+			if body == nil {
+				return true
+			}
+			params := paramObjs(p, ft)
+			ad := adder{node: n, keyIdx: -1}
+			ast.Inspect(body, func(m ast.Node) bool {
+				if _, nested := m.(*ast.FuncLit); nested {
+					return false // its assignments belong to the nested function
+				}
+				as, ok := m.(*ast.AssignStmt)
+				if !ok {
+					return true
+				}
+				for _, l := range as.Lhs {
+					ix, ok := ast.Unparen(l).(*ast.IndexExpr)
+					if !ok {
+						continue
+					}
+					if tv, ok := p.TypesInfo.Types[ix.X]; !ok || !isStringStringMap(tv.Type) {
+						continue
+					}
+					be, ok := ast.Unparen(ix.Index).(*ast.BinaryExpr)
+					if !ok || be.Op != token.ADD {
+						continue
+					}
+					pre, ok := fw.EvalStr(p, be.X)
+					id, ok2 := ast.Unparen(be.Y).(*ast.Ident)
+					if !ok || !ok2 {
+						continue
+					}
+					for i, po := range params {
+						if po != nil && p.TypesInfo.Uses[id] == po {
+							if ad.keyIdx == -1 || ad.keyIdx == i {
+								ad.keyIdx = i
+								ad.prefixes = append(ad.prefixes, pre)
+							}
+						}
+					}
+				}
+				return true
+			})
+			if ad.keyIdx >= 0 {
+				out = append(out, ad)
+			}
+			return true
+		})
+	}
+	return out
+}
+
+// adderObj is the object through which the adder is called: the declared function, or the
+// variable a function literal is assigned to.
+func adderObj(p *packages.Package, ad adder) types.Object {
+	if fd, ok := ad.node.(*ast.FuncDecl); ok {
+		return p.TypesInfo.Defs[fd.Name]
+	}
+	var obj types.Object
+	for _, f := range p.Syntax {
+		ast.Inspect(f, func(n ast.Node) bool {
+			switch s := n.(type) {
+			case *ast.AssignStmt:
+				if len(s.Lhs) == len(s.Rhs) {
+					for i, r := range s.Rhs {
+						if ast.Unparen(r) == ad.node {
+							if id, ok := s.Lhs[i].(*ast.Ident); ok {
+								if obj = p.TypesInfo.Defs[id]; obj == nil {
+									obj = p.TypesInfo.Uses[id]
+								}
+							}
+						}
+					}
+				}
+			case *ast.ValueSpec:
+				for i, r := range s.Values {
+					if ast.Unparen(r) == ad.node && i < len(s.Names) {
+						obj = p.TypesInfo.Defs[s.Names[i]]
+					}
+				}
+			}
+			return true
+		})
+	}
+	return obj
+}
+
+func projectBuiltins(mv *packages.Package) ([]builtin, []string, error) {
+	ads := findAdders(mv)
+	if len(ads) != 1 {
+		return nil, nil, fmt.Errorf("maven: expected one function storing under <constant prefix>+<string parameter> in a map[string]string, found %d", len(ads))
+	}
+	ad := ads[0]
+	obj := adderObj(mv, ad)
+	if obj == nil {
+		return nil, nil, fmt.Errorf("maven: the function adding project properties is not bound to a name")
+	}
+	var builtins []builtin
+	var bad error
+	for _, f := range mv.Syntax {
+		ast.Inspect(f, func(n ast.Node) bool {
+			call, ok := n.(*ast.CallExpr)
+			if !ok || bad != nil {
+				return true
+			}
+			var o types.Object
+			switch fn := ast.Unparen(call.Fun).(type) {
+			case *ast.Ident:
+				o = mv.TypesInfo.Uses[fn]
+			case *ast.SelectorExpr:
+				o = mv.TypesInfo.Uses[fn.Sel]
+			}
+			if o != obj {
+				return true
+			}
+			if ad.keyIdx >= len(call.Args) {
+				bad = fmt.Errorf("maven: the function adding project properties is called without a name (%s)", mv.Fset.Position(call.Pos()))
+				return true
+			}
+			k, ok := fw.EvalStr(mv, call.Args[ad.keyIdx])
+			// the value: the one other argument that is a field of the Project
+			var paths []string
+			for i, a := range call.Args {
+				if path, isField := projectField(mv, a); isField && i != ad.keyIdx {
+					paths = append(paths, path)
+				}
+			}
+			ok2 := len(paths) == 1
+			idx, ok3 := 0, false
+			if ok2 {
+				idx, ok3 = fieldIndex[paths[0]]
+			}
+			if !ok || !ok2 || !ok3 {
+				bad = fmt.Errorf("maven: a project property is added with a non-constant name or a value that is not one of the Project's coordinates (%s)", mv.Fset.Position(call.Pos()))
+				return true
+			}
+			builtins = append(builtins, builtin{k, idx})
+			return true
+		})
+	}
+	if bad != nil {
+		return nil, nil, bad
+	}
+	if len(builtins) == 0 {
+		return nil, nil, fmt.Errorf("maven: no built-in project property")
+	}
+	// The calls write disjoint keys exactly when the names are distinct (and the prefixes are);
+	// then their order is immaterial and the tables are emitted in a canonical order
+	// (built-ins by field number, prefixes by bytes).
+	seen := map[string]bool{}
+	for _, x := range builtins {
+		if seen[x.key] {
+			return nil, nil, fmt.Errorf("maven: built-in project property %q is added twice (order-dependent)", x.key)
+		}
+		seen[x.key] = true
+	}
+	prefixes := append([]string(nil), ad.prefixes...)
+	for i, x := range prefixes {
+		for _, y := range prefixes[:i] {
+			if x == y {
+				return nil, nil, fmt.Errorf("maven: prefix %q is written twice", x)
+			}
+		}
+	}
+	written := map[string]bool{}
+	for _, x := range builtins {
+		for _, w := range append([]string{""}, prefixes...) {
+			if written[w+x.key] {
+				return nil, nil, fmt.Errorf("maven: project property key %q is written by two built-ins (order-dependent)", w+x.key)
+			}
+			written[w+x.key] = true
+		}
+	}
+	sort.SliceStable(builtins, func(i, j int) bool {
+		if builtins[i].field != builtins[j].field {
+			return builtins[i].field < builtins[j].field
+		}
+		return builtins[i].key < builtins[j].key
+	})
+	sort.Slice(prefixes, func(i, j int) bool { return bytes.Compare([]byte(prefixes[i]), []byte(prefixes[j])) < 0 })
+	return builtins, prefixes, nil
+}
 
 func genC15Consts(repo string) (string, error) {
 	mv, err := fw.LoadPkg(filepath.Join(repo, "util", "maven"))
@@ -55,87 +324,31 @@ func genC15Consts(repo string) (string, error) {
 	if err != nil {
 		return "", err
 	}
-	maxImports, err := fw.ConstInt(mv, "MaxImports")
-	if err != nil {
+	// values of the exported API, as the linked code holds them
+	maxImports := int64(maven.MaxImports)
+	maxParent := int64(resolve.MaxMavenParent)
+	jdk := string(maven.JDKProfileActivation)
+	linkedOS := maven.OSProfileActivation
+	osv := map[string]string{"Name": string(linkedOS.Name), "Family": string(linkedOS.Family), "Arch": string(linkedOS.Arch), "Version": string(linkedOS.Version)}
+	if err := agree(mv, "MaxImports", constant.MakeInt64(maxImports)); err != nil {
 		return "", err
 	}
-	maxParent, err := fw.ConstInt(rs, "MaxMavenParent")
-	if err != nil {
+	if err := agree(rs, "MaxMavenParent", constant.MakeInt64(maxParent)); err != nil {
 		return "", err
 	}
-	jdk, err := constString(mv, "JDKProfileActivation")
-	if err != nil {
+	if err := agree(mv, "JDKProfileActivation", constant.MakeString(jdk)); err != nil {
 		return "", err
+	}
+	if maxImports < 0 || maxParent < 0 {
+		return "", fmt.Errorf("negative bound: MaxImports %d, MaxMavenParent %d", maxImports, maxParent)
 	}
 	jdkNums, ok := parseNums(jdk)
 	if !ok {
 		return "", fmt.Errorf("JDKProfileActivation %q is not a dotted decimal version", jdk)
 	}
-	// OSProfileActivation = ActivationOS{Name: …, Family: …, Arch: …, Version: …}
-	osv := map[string]string{}
-	lit, ok := fw.FindVar(mv, "OSProfileActivation").(*ast.CompositeLit)
-	if !ok {
-		return "", fmt.Errorf("OSProfileActivation: not a composite literal")
-	}
-	for _, e := range lit.Elts {
-		kv, ok := e.(*ast.KeyValueExpr)
-		if !ok {
-			return "", fmt.Errorf("OSProfileActivation: unkeyed field")
-		}
-		s, ok := fw.EvalStr(mv, kv.Value)
-		if !ok {
-			return "", fmt.Errorf("OSProfileActivation: non-constant field")
-		}
-		osv[kv.Key.(*ast.Ident).Name] = s
-	}
-	// propertyMap: addProjectProperty("k", p.Field) calls, and the prefixes its body assigns under
-	type builtin struct {
-		key   string
-		field int
-	}
-	var builtins []builtin
-	var prefixes []string
-	found := false
-	for _, f := range mv.Syntax {
-		for _, d := range f.Decls {
-			fd, ok := d.(*ast.FuncDecl)
-			if !ok || fd.Name.Name != "propertyMap" || fd.Body == nil {
-				continue
-			}
-			found = true
-			var bad error
-			ast.Inspect(fd.Body, func(n ast.Node) bool {
-				switch x := n.(type) {
-				case *ast.CallExpr:
-					if id, ok := x.Fun.(*ast.Ident); ok && id.Name == "addProjectProperty" && len(x.Args) == 2 {
-						k, ok := fw.EvalStr(mv, x.Args[0])
-						idx, ok2 := fieldIndex[selPath(x.Args[1])]
-						if !ok || !ok2 {
-							bad = fmt.Errorf("propertyMap: unrecognised addProjectProperty call")
-							return false
-						}
-						builtins = append(builtins, builtin{k, idx})
-					}
-				case *ast.AssignStmt:
-					if len(x.Lhs) == 1 {
-						if ix, ok := x.Lhs[0].(*ast.IndexExpr); ok {
-							if be, ok := ix.Index.(*ast.BinaryExpr); ok && be.Op == token.ADD {
-								if s, ok := fw.EvalStr(mv, be.X); ok {
-									prefixes = append(prefixes, s)
-								}
-							}
-						}
-					}
-				}
-				return true
-			})
-			if bad != nil {
-				return "", bad
-			}
-		}
-	}
-	if !found || len(builtins) == 0 {
-		return "", fmt.Errorf("propertyMap: not found or no built-ins")
+	builtins, prefixes, err := projectBuiltins(mv)
+	if err != nil {
+		return "", err
 	}
 	var b strings.Builder
 	b.WriteString("-- C15Consts: constants of util/maven and util/resolve that the C15 model uses.\n")
